@@ -36,6 +36,8 @@ def verdict(c, cls, halg, by, res, allowed, env=None):
     if by == "attacker" and c in ("vcjwt", "vcld", "jar", "authzv1"):
         return ("key-not-of-issuer", f"accepted although signed only by another party's key under that party's kid ({cls}): "
                 "the key does not come from the issuer's / client's own key material")
+    if by == "attacker" and c == "dpop" and cls == "kid-jwk-confusion":
+        return None   # a DPoP proof is a proof of possession of the embedded key, whoever holds it; the kid header plays no role
     if by == "attacker" and not (c in ("dpop", "dagtx") and cls == "embed-jwk-pub-attacker"):
         return ("key-from-header", f"signed only by a key unknown to the protocol's key source ({cls}) and accepted")
     if by == "nobody":
@@ -53,7 +55,7 @@ def run(ctx):
     facts = ctx.facts() or {}
     thms = ctx.build_and_audit(["NutsProofs.Props.C17"])
     required = ["allowed_lists_asymmetric", "accept_parseJWT", "accept_parseJWS", "accept_dpop", "accept_dagTx", "accept_dagTx_partial", "accept_dagTx_of_fact",
-                "fact_dag_rejects_private_jwk", "fact_dag_framing_body",
+                "fact_dag_rejects_private_jwk", "fact_dag_framing_body", "fact_dag_kid_xor_jwk",
                 "accept_apiToken", "accept_jar", "accept_vcJwt", "accept_vcJsonLd", "fact_vcJsonLd", "fact_wiring", "accept_authzV1", "accept_ldProof", "fact_authzV1",
                 "authzV1_without_kid_check_accepts_foreign_key", "header_keys_ignored", "apiToken_key_header_rejected",
                 "parseJWS_splitCompact_mode_accepts_two_uncovered", "dagTx_without_private_check_accepts_private_jwk",
@@ -142,6 +144,8 @@ def run(ctx):
             v = verdict(c, cls, halg, op.get("by", ""), line, allowed, op.get("env"))
             # DAG transactions are content-addressed by their bytes: what is accepted must be a JSON serialisation or
             # byte-identical to the canonical compact serialisation (verdict computed by the harness's own re-encode-and-compare)
+            if not v and c == "vcld" and line == "accept" and op.get("v", {}).get("nproofs") != 1:
+                v = ("proof-set", f"a JSON-LD document with {op['v'].get('nproofs')} proofs was accepted (exactly one signature is required)")
             if not v and c == "introspect" and line == "accept" and not op.get("v", {}).get("ownkey"):
                 v = ("foreign-key", "an access token whose kid is not one of this node's own keys was accepted by introspection")
             if not v and c == "dagtx" and line == "accept" and op.get("v", {}).get("framing") is False:
